@@ -46,3 +46,80 @@ def real_blocking(shape, thr, merge, dtype=torch.float64):
         torch._foreach_add_(list(dist.local_masked_blocked_params), 1.0)
     out["write_through"] = bool(torch.equal(param.detach().reshape(-1), torch.arange(numel, dtype=dtype) + 1.0))
     return out
+
+
+def real_split_recovery(which, shape, s, e):
+    """Pieces returned by the FSDP / HSDP copy of _split_tensor_block_recovery on shard = arange(s, e)."""
+    if which == "fsdp":
+        from distributed_shampoo.utils.shampoo_fsdp_distributor import FSDPDistributor as D
+    else:
+        from distributed_shampoo.utils.shampoo_hsdp_distributor import HSDPDistributor as D
+    shard = torch.arange(s, e, dtype=torch.float64)
+    pieces = D._split_tensor_block_recovery(shard, torch.Size(shape), s, e)
+    base = shard.untyped_storage().data_ptr()
+    out = []
+    for p in pieces:
+        flat = p.reshape(-1)
+        out.append({
+            "off": int(flat[0].item()) if flat.numel() else None,
+            "len": int(p.numel()),
+            "shp": [int(x) for x in p.shape],
+            "view": p.untyped_storage().data_ptr() == base and p.storage_offset() == (int(flat[0].item()) - s if flat.numel() else 0),
+            "contiguous_values": bool(flat.numel() == 0 or torch.equal(flat, torch.arange(int(flat[0].item()), int(flat[0].item()) + flat.numel(), dtype=torch.float64))),
+            "is_contiguous": p.is_contiguous(),
+        })
+    return out
+
+
+def real_split_recovery_rejects_nonflat(which):
+    if which == "fsdp":
+        from distributed_shampoo.utils.shampoo_fsdp_distributor import FSDPDistributor as D
+    else:
+        from distributed_shampoo.utils.shampoo_hsdp_distributor import HSDPDistributor as D
+    res = {}
+    for shp in ((2, 3), (1, 6), (6, 1), (1, 1, 6)):
+        try:
+            D._split_tensor_block_recovery(torch.zeros(shp), torch.Size((2, 3)), 0, 6)
+            res[str(shp)] = "returned"
+        except ValueError:
+            res[str(shp)] = "ValueError"
+        except Exception as ex:  # noqa
+            res[str(shp)] = type(ex).__name__
+    return res
+
+
+def _dist_cls(which):
+    if which == "ddp":
+        from distributed_shampoo.utils.shampoo_ddp_distributor import DDPDistributor as D
+    elif which == "hsdp":
+        from distributed_shampoo.utils.shampoo_hsdp_distributor import HSDPDistributor as D
+    else:
+        from distributed_shampoo.utils.shampoo_hybrid_shard_distributor import HybridShardDistributor as D
+    return D
+
+
+def real_assignment(which, numels, itemsize, G, rank=0):
+    """LPT assignment and gather-buffer layout of one of the three copies, driven through a stub `self`."""
+    import types
+    D = _dist_cls(which)
+    comm_dtype = {2: torch.bfloat16, 4: torch.float32}[itemsize]
+    stub = types.SimpleNamespace(_group_size=G, _dist_group_size=G)
+    sizes = tuple(n * itemsize for n in numels)
+    bsr = D._distribute_buffer_sizes(stub, sizes)
+    out = {"lpt": [[int(a), int(r)] for a, r in bsr]}
+    if not numels:
+        return out
+    stub._global_blocked_params = tuple(torch.zeros(n) for n in numels)
+    stub._distributor_selector = tuple(r == rank for _, r in bsr)
+    D._construct_distributed_buffers(stub, bsr, comm_dtype, rank)
+    gbuf = stub._global_dist_buffer
+    base = gbuf.untyped_storage().data_ptr()
+    out["total"] = int(gbuf.numel())
+    out["local_seg"] = [int(stub._local_dist_buffer.storage_offset()), int(stub._local_dist_buffer.numel())]
+    out["views"] = [
+        {"off": int(v.storage_offset()) * itemsize, "bytes": int(v.numel()) * itemsize, "dtype_ok": v.dtype == comm_dtype,
+         "same_storage": v.untyped_storage().data_ptr() == base, "shape_ok": tuple(v.shape) == tuple(p.shape)}
+        for v, p in zip(stub._global_dist_blocked_buffers, stub._global_blocked_params)
+    ]
+    out["local_views"] = len(stub._local_dist_blocked_buffers)
+    return out
